@@ -169,6 +169,7 @@ type world struct {
 	allowCancel   bool
 	allowDeadline bool
 	allowRotate   bool
+	allowClear    bool
 }
 
 type transport struct{ w *world }
@@ -336,6 +337,7 @@ func runInBubble(o *kernel.Outcome, spec kernel.Spec) {
 	if w.nextKey < len(order) {
 		w.nextKeyIdx = order[w.nextKey]
 	}
+	w.allowClear = w.allowRotate && tape.Sub("cfg-clear").Bool(1, 3)
 	client := &http.Client{Transport: &transport{w: w}}
 	if skip {
 		w.ks = rp.NewRemoteKeySet(client, "https://op.sim/keys", rp.SkipRemoteCheck())
@@ -550,6 +552,16 @@ func (w *world) enabled(order []int, draining bool) []kernel.Event {
 				w.mu.Unlock()
 			}})
 		}
+		if len(w.served) > 0 && w.allowClear {
+			// the provider withdraws every key (a legal, successful JWKS answer with no usable key: "keys":[] or, with
+			// the badkty answer, only keys of an unknown type): everything cached before is retired by it
+			evs = append(evs, kernel.Event{Name: "rotate:clear", Weight: 1, Apply: func() {
+				w.rotations++
+				w.mu.Lock()
+				w.served = nil
+				w.mu.Unlock()
+			}})
+		}
 		if len(w.served) > 1 {
 			evs = append(evs, kernel.Event{Name: "rotate:retire", Weight: 1, Apply: func() {
 				w.rotations++
@@ -577,7 +589,7 @@ func (w *world) invoke(i int) {
 	c := &call{Caller: i, N: n, Invoke: w.s.Step, Return: -1, CtxDead: -1}
 	// bias towards keys that are served now or will be rotated in next
 	switch x := ch.Int(10); {
-	case x < 5:
+	case x < 5 && len(w.served) > 0:
 		c.TokKey = w.served[ch.Int(len(w.served))].Key
 	case x < 7 && w.nextKeyIdx >= 0:
 		c.TokKey = w.nextKeyIdx
